@@ -1,6 +1,6 @@
 (* QVM instructions: decoding (cpu.get_instruction_at), _exec_* and tick/_trap. *)
 From Coq Require Import ZArith List Bool Lia.
-From QV Require Import Sx Strs Fl Dec NumFmt Cell Using Print Machine.
+From QV Require Import Sx Strs Fl Dec NumFmt Literal Cell Using Print Machine.
 Import ListNotations.
 Open Scope Z_scope.
 
@@ -645,7 +645,14 @@ Definition exec (m : module) (i : instr) : M unit :=
     | Some c => repush c
     | None => crashM CrAttr       (* None.type *)
     end
-  | ISdbl => crashM CrPowUnknown       (* VAL: modelled separately (Literal.v); excluded here *)
+  | ISdbl =>
+    (* VAL: the numeric_literal grammar + NumericLiteral.parse (Models/Literal.v);
+       only ParseException is caught by _exec_sdbl, qbee's SyntaxError escapes (D61) *)
+    do s <- pop_str;
+    match val_text s with
+    | VOk f => push 4 (PFlt f)
+    | VSyntaxError _ => crashM CrSyntax
+    end
   | ISign =>
     do v <- pop;
     if negb (is_numeric v) then crashM CrName else
